@@ -2,6 +2,7 @@ import KitModel.Ring
 import KitModel.Containers
 import KitModel.Generated.C14
 import KitProofs.Lemmas.Containers
+import KitProofs.Lemmas.Buffered
 /-!
 # C14 — containers refine their models
 
@@ -9,6 +10,11 @@ import KitProofs.Lemmas.Containers
   (`atomic_sections_linearizable`), instantiated for `cmap.Map`, `cmap.AtomicValue`, `cmap.Atomic`
   (with the two-section `GetOrCreate`) and `slice.Slice`; the lock shapes the instances assume are
   re-extracted from the Go source on every run (`Generated.C14.methods`).
+* `ring.Ring` on a heap of nodes: `Len (New n) = n`; `next`/`prev` stay mutually inverse under
+  every sequence of `New`/`Link`/`Unlink`/value writes on arbitrary nodes; `Link` of different
+  rings concatenates, of one ring splits; `Unlink`, `Move`, `Len`, `Do` on a well-formed ring.
+* `ring.Buffered` (after the repair of `RemoveFront` on empty) is a FIFO queue for every initial
+  size, buffer size and operation sequence (`buffered_refines_queue`).
 -/
 namespace Kit.C14
 open Kit.Containers
@@ -214,5 +220,194 @@ theorem counter_map_read_ops_readonly (op : AMOp)
 /-- the read section of `GetOrCreate` never changes the state, whatever it answers -/
 theorem getOrCreate_first_section_readonly (k : Nat) (c : Int) (s s' : AMSt) (out : Ret ⊕ AMK)
     (h : amImpl.sect (.first (.getOrCreate k c)) s s' out) : s' = s := h.1
+
+
+/-! ## ring.Ring = container/ring, on the heap model -/
+section ring
+open Kit.Ring
+variable {α : Type}
+
+/-- `New(n).Len() = n` (and `New(n) = nil`, of length 0, for `n ≤ 0`) -/
+theorem ring_len_new [Inhabited α] (h : Heap α) (n : Int) (v : α) :
+    lenOpt (Ring.new h n v).1 (Ring.new h n v).2 = n.toNat := by
+  by_cases hn : n ≤ 0
+  · simp only [Ring.new, hn, if_true, lenOpt]; omega
+  · obtain ⟨k, hk⟩ : ∃ k : Nat, n = ((k + 1 : Nat) : Int) := ⟨(n - 1).toNat, by omega⟩
+    subst hk
+    obtain ⟨e2, _, hF, _, _⟩ := new_spec h k v
+    rw [e2, List.range'_succ] at *
+    simp only [lenOpt]
+    rw [len_ring hF]; simp
+
+/-- `New(n)` for `n ≥ 1` is a well-formed ring of the `n` fresh nodes, all holding the zero
+value, and leaves every existing node as it was -/
+theorem ring_new_wellformed [Inhabited α] (h : Heap α) (k : Nat) (v : α) :
+    let res := Ring.new h ((k + 1 : Nat) : Int) v
+    res.2 = some h.size ∧ IsRing res.1 (List.range' h.size (k + 1)) ∧
+    (∀ x, x < h.size → nx res.1 x = nx h x ∧ pv res.1 x = pv h x ∧ vl res.1 x = vl h x) ∧
+    (∀ x ∈ List.range' h.size (k + 1), vl res.1 x = v) := by
+  obtain ⟨a, _, c, d, e⟩ := new_spec h k v
+  exact ⟨a, c, d, e⟩
+
+/-- `next ∘ prev = id = prev ∘ next` on all allocated nodes is preserved by **every** sequence of
+`New`, zero-value allocation, `Link`, `Unlink` and value writes on arbitrary allocated nodes
+(not only on well-formed rings; `Move`, `Next`, `Prev`, `Len`, `Do` do not write). -/
+theorem ring_ops_preserve_next_prev_inverse (ops : List ROp) : WF (ops.foldl ringStep #[]) := by
+  suffices H : ∀ h, WF h → WF (ops.foldl ringStep h) from H _ wf_empty
+  induction ops with
+  | nil => exact fun h hw => hw
+  | cons op ops ih =>
+    intro h hw
+    apply ih
+    cases op with
+    | new n => exact wf_new hw n 0
+    | zero => exact wf_alloc hw 0
+    | link r s =>
+      simp only [ringStep]
+      split
+      · next hc => exact wf_link hw hc.1 s hc.2
+      · exact hw
+    | unlink r n =>
+      simp only [ringStep]
+      split
+      · next hc => exact wf_unlink hw hc n
+      · exact hw
+    | set r v => exact wf_setVal hw r v
+
+example : WF ([ROp.new 3, .new 2, .link 0 (some 3), .unlink 4 7, .zero, .link 5 (some 1), .link 2 (some 2)].foldl ringStep #[]) :=
+  ring_ops_preserve_next_prev_inverse _
+
+/-- in a well-formed ring `Next`/`Prev` stay in the ring and invert each other -/
+theorem ring_next_prev_inverse {h : Heap α} {l : List Nat} (hr : IsRing h l) :
+    ∀ x ∈ l, next h x ∈ l ∧ prev h x ∈ l ∧ prev h (next h x) = x ∧ next h (prev h x) = x :=
+  hr.inverse
+
+/-- the listing of a ring may start anywhere (rotation) -/
+theorem ring_rotate {h : Heap α} {a : Nat} {xs : List Nat} (hr : IsRing h (a :: xs)) : IsRing h (xs ++ [a]) :=
+  hr.rotate
+
+/-- `Len` = number of elements -/
+theorem ring_len {h : Heap α} {a : Nat} {xs : List Nat} (hr : IsRing h (a :: xs)) : len h a = (a :: xs).length :=
+  len_ring hr
+
+/-- **Link, different rings** ("creates a single ring with the elements of s inserted after r;
+the result points to the element following the last element of s after insertion"):
+listing r's ring so that it ends with `r`, and s's ring from `s`, the new ring is the
+concatenation and the result is the old `r.Next()` (the head of r's listing). -/
+theorem ring_link_concatenates {h : Heap α} {a : Nat} {xs : List Nat} {s : Nat} {ys : List Nat}
+    (h1 : IsRing h (a :: xs)) (h2 : IsRing h (s :: ys)) (hdis : ∀ x ∈ a :: xs, ∀ y ∈ s :: ys, x ≠ y) :
+    IsRing (link h (lastOf a xs) (some s)).1 (a :: xs ++ s :: ys) ∧ (link h (lastOf a xs) (some s)).2 = a :=
+  link_concat h1 h2 hdis
+
+/-- **Link, same ring** ("removes the elements between r and s from the ring; the removed
+elements form a subring and the result is a reference to that subring"). -/
+theorem ring_link_splits {h : Heap α} {P : List Nat} {r m : Nat} {ms : List Nat} {s : Nat} {ys : List Nat}
+    (hr : IsRing h (P ++ r :: (m :: ms ++ s :: ys))) :
+    IsRing (link h r (some s)).1 (P ++ r :: s :: ys) ∧ IsRing (link h r (some s)).1 (m :: ms) ∧
+      (link h r (some s)).2 = m :=
+  link_split_at hr
+
+/-- "if no elements were removed, the result is still the original value for r.Next()" -/
+theorem ring_link_next_is_noop {h : Heap α} {a : Nat} {xs : List Nat} {s : Nat} {ys : List Nat}
+    (hr : IsRing h (a :: xs ++ s :: ys)) :
+    IsRing (link h (lastOf a xs) (some s)).1 (a :: xs ++ s :: ys) ∧ (link h (lastOf a xs) (some s)).2 = s :=
+  link_next_noop hr
+
+/-- `Link(nil)` changes nothing and returns `r.Next()` -/
+theorem ring_link_nil (h : Heap α) (r : Nat) : link h r none = (h, next h r) := rfl
+
+/-- **Unlink(n)** removes the `n` elements after `r` (here: fewer than the rest of the ring),
+which form the returned subring -/
+theorem ring_unlink_removes {h : Heap α} {P : List Nat} {r m : Nat} {ms : List Nat} {s : Nat} {ys : List Nat}
+    (hr : IsRing h (P ++ r :: (m :: ms ++ s :: ys))) :
+    let res := unlink h r (((m :: ms).length : Nat) : Int)
+    IsRing res.1 (P ++ r :: s :: ys) ∧ IsRing res.1 (m :: ms) ∧ res.2 = some m := by
+  have hpos : ¬ ((((m :: ms).length : Nat) : Int) ≤ 0) := by simp only [List.length_cons]; omega
+  have hl : Links h (r :: (m :: ms) ++ s :: ys) := by
+    have := links_suffix P _ hr.links; simpa using this
+  have hmv : move h r ((((m :: ms).length : Nat) : Int) + 1) = s := by
+    have : ((((m :: ms).length : Nat) : Int) + 1) = (((m :: ms).length + 1 : Nat) : Int) := by simp
+    rw [this, move_nonneg]; exact iter_next_links r (m :: ms) s ys hl
+  obtain ⟨a, b, c⟩ := link_split_at hr
+  simp only [unlink, hpos, if_false, hmv]
+  exact ⟨a, b, congrArg some c⟩
+
+/-- `Unlink(n)` for `n ≤ 0` returns nil and changes nothing -/
+theorem ring_unlink_nonpositive (h : Heap α) (r : Nat) (n : Int) (hn : n ≤ 0) : unlink h r n = (h, none) := by
+  simp [unlink, hn]
+
+/-- **Move(k)**, `k ≥ 0`: the element `k` places further in the listing -/
+theorem ring_move_forward {h : Heap α} {a : Nat} {xs : List Nat} {b : Nat} {ys : List Nat}
+    (hr : IsRing h (a :: xs ++ b :: ys)) : move h a (((xs.length + 1 : Nat)) : Int) = b :=
+  move_head hr
+
+/-- `Move` never leaves the ring, in either direction, for any `n` -/
+theorem ring_move_stays {h : Heap α} {l : List Nat} (hr : IsRing h l) {x : Nat} (hx : x ∈ l) (n : Int) :
+    move h x n ∈ l := by
+  have key : ∀ (f : Nat → Nat), (∀ y ∈ l, f y ∈ l) → ∀ k y, y ∈ l → iter f k y ∈ l := by
+    intro f hf k
+    induction k with
+    | zero => exact fun y hy => hy
+    | succ k ih => exact fun y hy => ih (f y) (hf y hy)
+  unfold move
+  split
+  · exact key _ (fun y hy => (hr.inverse y hy).2.1) _ x hx
+  · exact key _ (fun y hy => (hr.inverse y hy).1) _ x hx
+
+example : ∃ h : Heap Int, IsRing h [0, 1, 2] ∧ IsRing h [3, 4] := by
+  obtain ⟨_, hA, _, _⟩ := ring_new_wellformed (#[] : Heap Int) 2 0
+  obtain ⟨_, hB, fr, _⟩ := ring_new_wellformed (Ring.new (#[] : Heap Int) 3 0).1 1 0
+  have hs : (Ring.new (#[] : Heap Int) 3 0).1.size = 3 := by
+    have := (new_spec (#[] : Heap Int) 2 0).2.1; simpa using this
+  refine ⟨(Ring.new (Ring.new (#[] : Heap Int) 3 0).1 2 0).1, ?_, ?_⟩
+  · exact IsRing.congr (by simpa [List.range'_succ] using hA) (fun x hx => (fr x (by simp at hx; omega)).1)
+      (fun x hx => (fr x (by simp at hx; omega)).2.1) (by show (Ring.new (#[] : Heap Int) 3 0).1.size ≤ (Ring.new (Ring.new (#[] : Heap Int) 3 0).1 ((1 + 1 : Nat) : Int) 0).1.size; rw [(new_spec (Ring.new (#[] : Heap Int) 3 0).1 1 0).2.1]; omega)
+  · simpa [hs, List.range'_succ] using hB
+
+end ring
+
+/-! ## ring.Buffered = FIFO queue -/
+section buffered
+open Kit.Ring
+
+/-- **Buffered refines a FIFO queue.** For every `initialSize`, `bufferSize` (including the
+values below 1 that `NewBuffered` raises to 1) and every sequence of `AppendBack`,
+`RemoveFront`, `Front`, `Len`, `Range` (with any early-stop value), the answers of the
+heap-level model of `ring.Buffered` equal those of a plain list queue. -/
+theorem buffered_refines_queue (initial bsize : Int) (ops : List BOp) :
+    (Buf.new initial bsize).run ops = Queue.run [] ops :=
+  (BInv.new initial bsize).run ops
+
+/-- the representation invariant behind it: at every moment the ring lists `Len()` committed
+nodes holding the queue, oldest first, followed by free nodes all holding nil -/
+theorem buffered_invariant (initial bsize : Int) (ops : List BOp) :
+    ∃ q, BInv (ops.foldl (fun b op => (b.step op).1) (Buf.new initial bsize)) q ∧
+      q = ops.foldl (fun q op => (Queue.step q op).1) [] := by
+  suffices H : ∀ b q, BInv b q → BInv (ops.foldl (fun b op => (b.step op).1) b) (ops.foldl (fun q op => (Queue.step q op).1) q) from
+    ⟨_, H _ _ (BInv.new initial bsize), rfl⟩
+  induction ops with
+  | nil => exact fun b q h => h
+  | cons op ops ih => exact fun b q h => ih _ _ (h.step op).1
+
+example : (Buf.new 3 2).run [.append (some 1), .append (some 2), .append (some 3), .append (some 4), .removeFront,
+    .removeFront, .removeFront, .removeFront, .removeFront, .append (some 5), .len, .front, .range none]
+    = [.unit, .unit, .unit, .unit, .val (some 2), .val (some 3), .val (some 4), .val none, .val none, .unit,
+       .int 1, .val (some 5), .vals [some 5]] := by
+  rw [buffered_refines_queue]; rfl
+
+/-- What the unchanged tree did (`RemoveFront` without the emptiness guard), on the model:
+after `RemoveFront` on a new `NewBuffered(3, 5)` `Len()` is −1, and a value appended next is
+invisible — `Len()` says 0, `Front()` says nil, `Range` visits nothing.  A queue answers 0, then
+1 and the value. -/
+theorem buffered_removeFront_on_empty_witness :
+    let b0 := Buf.new 3 5
+    let b1 := b0.removeFrontOld.1
+    let b2 := b1.appendBack (some 7)
+    b1.len = -1 ∧ b2.len = 0 ∧ b2.front = none ∧ b2.range (fun _ => false) = [] ∧
+    Queue.run [] [.removeFront, .len, .append (some 7), .len, .front] =
+      [.val none, .int 0, .unit, .int 1, .val (some 7)] := by
+  decide
+
+end buffered
 
 end Kit.C14
